@@ -227,9 +227,9 @@ fn mem_tol(t: &DataType, y: &Value) -> bool {
 
 fn judge<E1: std::fmt::Display, E2: std::fmt::Display>(out: &mut Outcome, site: &str, what: &str, set: &str,
         y: Result<Result<Value, E1>, (String, String)>, img: Result<Result<DataType, E2>, (String, String)>, cls: &str) {
-    if let Err((loc, msg)) = &img { out.fail(&format!("C18/{site}/super_image-panic/{}", site_file(loc)), format!("super_image of {what} on {set} panicked at {loc}: {msg}")); }
+    if let Err((loc, msg)) = &img { out.fail(&format!("C18/{site}/super_image-panic/{}", crate::common::site(loc, msg)), format!("super_image of {what} on {set} panicked at {loc}: {msg}")); }
     match y {
-        Err((loc, msg)) => { out.tag("value-panic"); out.fail(&format!("C18/{site}/value-panic/{}", site_file(&loc)), format!("{what} panicked at {loc}: {msg}")); }
+        Err((loc, msg)) => { out.tag("value-panic"); out.fail(&format!("C18/{site}/value-panic/{}", crate::common::site(&loc, &msg)), format!("{what} panicked at {loc}: {msg}")); }
         Ok(Err(_)) => { out.tag("value-err"); out.tag("trivial"); }
         Ok(Ok(y)) => {
             out.tag("value-ok");
@@ -277,7 +277,7 @@ pub fn eval_img(case: &J) -> Outcome {
         Ok(Ok(DataType::Integer(i))) => json!(i.iter().map(|[a, b]| json!([a, b])).collect::<Vec<_>>()),
         Ok(Ok(t)) => json!({"other": t.to_string()}),
         Ok(Err(_)) => json!("err"),
-        Err((loc, msg)) => { out.fail(&format!("C18/fnimg/{f}/panic/{}", site_file(&loc)), format!("super_image of {f} on ({s1}, {s2}) panicked: {msg}")); json!("panic") }
+        Err((loc, msg)) => { out.fail(&format!("C18/fnimg/{f}/panic/{}", site(&loc, &msg)), format!("super_image of {f} on ({s1}, {s2}) panicked: {msg}")); json!("panic") }
     };
     out
 }
